@@ -7,7 +7,7 @@ import ast
 from ..core import Ctx, RuleResult, finding, short, walk_no_nested
 from ..model import AnalysisError, norm
 from ..mutants import Mut
-from ..rules import accum, canv, dim, fresh
+from ..rules import accum, loopfresh, canv, dim, fresh
 from ..rules.defuse import DefUse
 from ..rules.exc import ExcEngine
 from ..rules.util import callee_name, cfg_of, lin_str, linear, nodes_where
@@ -225,11 +225,14 @@ def run(ctx: Ctx):
         rule_get_or(ctx),
         accum.run_accum(p, "C02.9", "C02", floor=5),
         _trim_frame(ctx),
+        loopfresh.run_loopfresh(p, "C02.11", "C02", floor=6),
     ]
 
 
 _C = "urwid/canvas.py"
 MUTANTS = [
+    Mut("delta-row-memo-hoisted", _C, "CompositeCanvas.content_delta", "        for num_rows, cviews in shards_delta(self.shards, other.shards):\n            # combine shard and shard tail\n            sbody = shard_body(cviews, shard_tail)\n\n            # output rows\n            row = []\n", "        row = []\n        for num_rows, cviews in shards_delta(self.shards, other.shards):\n            # combine shard and shard tail\n            sbody = shard_body(cviews, shard_tail)\n\n            # output rows\n", "LOOPFRESH|canvas.CompositeCanvas.content_delta"),
+    Mut("trim-sides-col-not-reset", _C, "shards_trim_sides", "        new_cviews = []\n        col = 0\n        for done_rows, _content_iter, cv in sbody:", "        new_cviews = []\n        for done_rows, _content_iter, cv in sbody:", "LOOPFRESH|canvas.shards_trim_sides", error_ok=True),
     Mut("trim-sides-skip-without-advance", _C, "shards_trim_sides", "            if done_rows or next_col <= left or col >= right:\n                col = next_col\n                continue", "            if done_rows:\n                continue\n            if next_col <= left or col >= right:\n                col = next_col\n                continue", "ACCUM|canvas.shards_trim_sides"),
     Mut("twin-trim-sides-skip-split", _C, "shards_trim_sides", "            if done_rows or next_col <= left or col >= right:\n                col = next_col\n                continue", "            if done_rows:\n                col = next_col\n                continue\n            if next_col <= left or col >= right:\n                col = next_col\n                continue", twin=True),
     Mut("trim-coords-wrong-sign", _C, "CompositeCanvas.trim", "self.coords = self.translate_coords(0, -top)", "self.coords = self.translate_coords(0, top)", "PAIR|canvas.CompositeCanvas.trim"),
